@@ -554,6 +554,39 @@ func unpackStreamR(p protos.P, stream []byte, n int, policy func() int, reuse bo
 	return out, sizes, nil, cleanEOF
 }
 
+// unpackDuplex unpacks one frame delivered in small reads while the SAME protocol object packs an unrelated small
+// message between the reads - what a session does when it writes while a frame is coming in.
+func unpackDuplex(p protos.P, frame []byte) (out wire.Spec, size uint32, err error) {
+	var pr erpc.Proto
+	small, berr := wire.Build(baselineFor(p), p)
+	if berr != nil {
+		return out, 0, berr
+	}
+	cr := &wire.ChunkReader{B: frame, Policy: func() int {
+		if pr != nil {
+			_ = safely(func() error { return pr.Pack(small) })
+		}
+		return 9
+	}}
+	pr = p.Func(wire.RW{Reader: cr, Writer: io.Discard})
+	m := wire.NewReceiver(p)
+	if e := safely(func() error { return pr.Unpack(m) }); e != nil {
+		return out, 0, e
+	}
+	return wire.Extract(m, p), m.Size(), nil
+}
+
+func baselineFor(p protos.P) wire.Spec {
+	s := wire.Spec{Seq: 77, Mtype: erpc.TypePush, Method: "/o/ther", Codec: codec.ID_JSON, Body: []byte(`{"o":2}`), Class: map[string]string{}}
+	if p.Struct {
+		s.Codec, s.Body, s.TS = codec.ID_THRIFT, nil, &wire.TStruct{A: 2, S: "o"}
+	}
+	if !p.Push {
+		s.Mtype = erpc.TypeCall
+	}
+	return s
+}
+
 // checkOne round-trips a single message alone, through every chunk policy.
 func checkOne(p protos.P, s wire.Spec, r *core.Rand) *failure {
 	pk, _, err := pack(p, []wire.Spec{s})
@@ -575,6 +608,22 @@ func checkOne(p protos.P, s wire.Spec, r *core.Rand) *failure {
 		}
 		if !clean && p.Stream {
 			return &failure{"desync", pol + ": bytes left over or no clean EOF after the only frame"}
+		}
+	}
+	// full duplex on one protocol object: what is received (content and reported size) does not depend on what is written meanwhile
+	if p.Stream {
+		_, aloneSz, e0, _ := unpackStream(p, pk.frames[0], 1, wire.Policy("whole", r))
+		out, sz, derr := unpackDuplex(p, pk.frames[0])
+		core.Add("duplex_unpacks", 1)
+		if derr != nil {
+			return &failure{"duplex-unpack-error", derr.Error()}
+		}
+		if f := compare(e, out, p); f != nil {
+			f.symptom = "duplex-" + f.symptom
+			return f
+		}
+		if e0 == nil && len(aloneSz) == 1 && sz != aloneSz[0] {
+			return &failure{"duplex-size", fmt.Sprintf("the received message reports size %d when the protocol object packs other messages between its reads, %d otherwise", sz, aloneSz[0])}
 		}
 	}
 	// raw protocol without a filter pipe: the frame the SUT wrote is read by the independent reference decoder of the
